@@ -29,6 +29,11 @@ type Op struct {
 type Case struct {
 	Ops   []Op `json:"ops"`
 	NName int  `json:"nnames"` // names in use: Names[:NName]
+	// Pre: the leading registrations (up to the first op that is not a
+	// registration, at most Pre of them) are given to New as WithUpcast
+	// options instead of RegisterUpcastFunc calls.  An option cannot report a
+	// rejection; a rejected registration must simply not be there.
+	Pre int `json:"pre,omitempty"`
 }
 
 type stop struct{ name string }
@@ -65,13 +70,18 @@ type harness struct {
 	store  *eventbus.MemoryStore
 	budget int
 	calls  int // upcaster applications for the event being replayed
+	// applied[i]: the function registered by op i has been called
+	applied map[int]bool
 }
 
-func (h *harness) upcaster(op Op) eventbus.UpcastFunc {
+func (h *harness) upcaster(op Op, idx ...int) eventbus.UpcastFunc {
 	if op.F == "nil" {
 		return nil
 	}
 	return func(data json.RawMessage) (json.RawMessage, string, error) {
+		if len(idx) > 0 && h.applied != nil {
+			h.applied[idx[0]] = true
+		}
 		h.calls++
 		if h.calls > h.budget {
 			panic(stop{op.From})
@@ -133,18 +143,44 @@ func Run(c *Case) *vkit.Outcome {
 func run(c *Case) *vkit.Outcome {
 	o := &vkit.Outcome{}
 	names := Names[:c.NName]
-	h := &harness{store: eventbus.NewMemoryStore(), budget: len(Names) + 2}
-	h.bus = eventbus.New(eventbus.WithStore(h.store))
+	h := &harness{store: eventbus.NewMemoryStore(), budget: len(Names) + 2, applied: map[int]bool{}}
+	g := map[string][]string{}
+	transitiveReject, nonFaithfulApplied := false, false
+	rejected := map[int]bool{}
+	opts := []eventbus.Option{eventbus.WithStore(h.store)}
+	pre := 0
+	for pre < c.Pre && pre < len(c.Ops) && c.Ops[pre].K == "reg" {
+		op := c.Ops[pre]
+		opts = append(opts, eventbus.WithUpcast(op.From, op.To, h.upcaster(op, pre)))
+		if accept(g, op) {
+			g[op.From] = append(g[op.From], op.To)
+			if op.F != "faithful" {
+				nonFaithfulApplied = true
+			}
+		} else {
+			rejected[pre] = true
+		}
+		pre++
+	}
+	h.bus = eventbus.New(opts...)
 	for _, n := range names {
 		h.store.Append(context.Background(), &eventbus.Event{Type: n, Data: []byte(`{}`)})
 	}
-	g := map[string][]string{}
-	transitiveReject, nonFaithfulApplied := false, false
 	for i, op := range c.Ops {
+		if i < pre {
+			if i < pre-1 {
+				continue
+			}
+			// all options are in: fall through to the replay check
+			op = Op{K: "options"}
+		}
 		switch op.K {
 		case "reg":
 			want := accept(g, op)
-			err := eventbus.RegisterUpcastFunc(h.bus, op.From, op.To, h.upcaster(op))
+			err := eventbus.RegisterUpcastFunc(h.bus, op.From, op.To, h.upcaster(op, i))
+			if !want {
+				rejected[i] = true
+			}
 			if (err == nil) != want {
 				o.Failf("", "op %d: RegisterUpcastFunc(%q -> %q, f=%s) returned %v; the model %s it (graph %v)", i, op.From, op.To, op.F, err, map[bool]string{true: "accepts", false: "rejects"}[want], g)
 				return o
@@ -179,6 +215,25 @@ func run(c *Case) *vkit.Outcome {
 		if nt != "" {
 			o.Failf("upcast-apply-does-not-terminate", "after op %d %+v: ReplayWithUpcast keeps applying upcasters (more than %d applications for one event, last at source %q); registered graph %v, ops so far %+v", i, op, h.budget, nt, g, c.Ops[:i+1])
 			return o
+		}
+		for ri := range rejected {
+			if h.applied[ri] {
+				how := "RegisterUpcastFunc returned an error for it"
+				if ri < pre {
+					how = "it was given as a WithUpcast option"
+				}
+				o.Failf("", "after op %d: the function of registration %d %+v was applied during an upcasting replay although that registration must be rejected (%s; graph of the accepted registrations %v; first %d ops given as options): a rejected registration is not registered", i, ri, c.Ops[ri], how, g, pre)
+				return o
+			}
+		}
+	}
+	if pre >= 2 {
+		o.Class("two_or_more_registrations_given_as_options")
+		for ri := range rejected {
+			if ri < pre && c.Ops[ri].From != "" && c.Ops[ri].To != "" && c.Ops[ri].From != c.Ops[ri].To && c.Ops[ri].F != "nil" {
+				o.Nontrivial = true
+				o.Class("an_option_registration_closes_a_cycle_with_earlier_options")
+			}
 		}
 	}
 	if transitiveReject {
